@@ -666,7 +666,8 @@ namespace avel {
 
     [[nodiscard]]
     AVEL_FINL vec8x64f fdim(vec8x64f x, vec8x64f y) {
-        return avel::max(x - y, vec8x64f{0.0});
+        //x - y is NaN for equal infinities; <cmath>'s fdim returns +0 there
+        return blend(x <= y, vec8x64f{0.0}, x - y);
     }
 
     [[nodiscard]]
